@@ -5,7 +5,7 @@ from oracle_util import *  # noqa
 from protocol import from_real, KEYS, KEY_IDX
 
 ID = "C14"
-LEAN_MODULE = ["SCoda.Props.C14", "SCoda.Props.Notes", "SCoda.Props.Gaps", "SCoda.Props.ElemTie"]
+LEAN_MODULE = ["SCoda.Props.C14", "SCoda.Props.Notes", "SCoda.Props.Gaps", "SCoda.Props.ElemTie", "SCoda.Props.ViewTie", "SCoda.Props.WrapTie"]
 LEVEL = "proof"
 CLAUSES = [
     ("every note stays inside the playable range", ["SCoda.C14.in_range", "SCoda.C14.wrap_in_range", "SCoda.C14.settings_range"]),
@@ -29,6 +29,9 @@ CLAUSES = [
      "Gen.transposeKey key k (valid, tonic shifted, None stays None) and the key signatures inside the bar likewise",
      ["SCoda.Gaps.bar_transpose_total", "SCoda.Gaps.bar_seq_transposed", "SCoda.Gaps.bar_notes_image", "SCoda.Gaps.bar_key_transposed", "SCoda.Gaps.bar_seq_keys",
       "SCoda.ElemTie.barTranspose_eq"]),
+    ("TIE BY TRANSLATION: RelativeSequence.transpose (both while loops, with fuel) and Sequence.transpose as re-translated from the source on every run equal the "
+     "models transposeRel / Seq.transposeSeq; the key function inside is the translated Key.transpose_key",
+     ["SCoda.ViewTie.transposeRel_eq", "SCoda.ViewTie.transposeRel_eq_gen", "SCoda.WrapTie.transpose_eq"]),
     ("glue: whatever Sequence.transpose does after the pitch shift (normalise, note-length quantisation), every note-on of the result is a note-on of the "
      "shifted view with the same pitch, channel and velocity, and the returned flag is the shift flag",
      ["SCoda.Notes.transposeSeq_note_ons", "SCoda.Notes.normalise_note_ons", "SCoda.Notes.toAbs_note_ons"]),
